@@ -11,6 +11,7 @@ from . import core
 
 REGISTRY = {
     "C19": "treemerge",
+    "C04": "objectstore",
 }
 
 
